@@ -2,7 +2,7 @@
    data-set model's link_blocks / get_block_title (whose loop is uniq_title) *)
 From Coq Require Import ZArith List Bool.
 From Coq Require Import Arith.
-From DV Require Import Model.PyPrims Model.C09AlphaTypes Model.C09Model Model.C09Prims Model.C09Nexus Model.C09Dataset Gen.CharIO.
+From DV Require Import Model.PyPrims Model.C09AlphaTypes Model.C09Model Model.C09Prims Model.C09Nexus Model.C09Dataset Model.C09TitleMode Gen.CharIO.
 From DV Require Import Proofs.C09Dataset.
 Import ListNotations.
 Open Scope Z_scope.
@@ -16,8 +16,12 @@ Qed.
 
 (* ---- _get_block_title ---- *)
 
-Lemma title_block_map_keys : forall given, map fst (title_block_map given) = map snd given.
-Proof. induction given as [|[b t] r IH]; simpl; [reflexivity|]. rewrite IH. reflexivity. Qed.
+(* the key of a title in _title_block_map, as the current source has it (Model/C09TitleMode.v is
+   written by the harness from the source on every run) *)
+Definition title_norm (upper : text -> text) : text -> text := if title_ci then upper else fun t => t.
+
+Lemma title_block_map_keys : forall norm given, map fst (title_block_map norm given) = map norm (map snd given).
+Proof. intros norm given. induction given as [|[b t] r IH]; simpl; [reflexivity|]. rewrite IH. reflexivity. Qed.
 
 Lemma tdict_set_fresh : forall d k v, text_mem k (map fst d) = false -> tdict_set d k v = d ++ [(k, v)].
 Proof.
@@ -44,32 +48,45 @@ Proof.
   destruct (Nat.eqb b j); [discriminate|]. rewrite (IH _ _ H). reflexivity.
 Qed.
 
-Lemma uniq_title_S : forall esc f l used idx t,
-  uniq_title esc (S f) l used idx t
-  = if text_mem t used then uniq_title esc f l used (idx + 1) (esc (l ++ 46 :: render_nat idx)) else Ok t.
+Lemma uniq_title_S : forall esc norm f l used idx t,
+  uniq_title esc norm (S f) l used idx t
+  = if text_mem (norm t) used then uniq_title esc norm f l used (idx + 1) (esc (l ++ 46 :: render_nat idx)) else Ok t.
 Proof. reflexivity. Qed.
 
-(* the generated while loop is uniq_title; the counter is not used after the loop *)
-Lemma while_uniq_title : forall (esc : text -> text) (A : Type) (k : text -> res A) (l : text) (d : tdict) f idx t,
+(* the generated while loop is uniq_title; the counter is not used after the loop.
+   Two shapes of the loop test: the key is title.upper() / the key is the title *)
+Lemma while_uniq_title_ci : forall (esc norm : text -> text) (A : Type) (k : text -> res A) (l : text) (d : tdict) f idx t,
+  (do x <- while_res f (fun carried_ : text * Z => let '(title, idx) := carried_ in tdict_contains d (norm title))
+                      (fun carried_ : text * Z => let '(title, idx) := carried_ in
+                         let raw_title := l ++ [46] ++ py_int_str idx in
+                         let title := esc raw_title in
+                         let idx := idx + 1 in Ok (title, idx)) (t, idx) ;;
+   let '(title, idx) := x in k title)
+  = do t' <- uniq_title esc norm f l (map fst d) idx t ;; k t'.
+Proof.
+  intros esc norm A k l d. induction f as [|f IH]; intros idx t; [reflexivity|].
+  rewrite uniq_title_S. cbn [while_res]. unfold tdict_contains at 1.
+  destruct (text_mem (norm t) (map fst d)); [|reflexivity].
+  cbn [bind]. rewrite IH. reflexivity.
+Qed.
+
+Lemma while_uniq_title_cs : forall (esc : text -> text) (A : Type) (k : text -> res A) (l : text) (d : tdict) f idx t,
   (do x <- while_res f (fun carried_ : text * Z => let '(title, idx) := carried_ in tdict_contains d title)
                       (fun carried_ : text * Z => let '(title, idx) := carried_ in
                          let raw_title := l ++ [46] ++ py_int_str idx in
                          let title := esc raw_title in
                          let idx := idx + 1 in Ok (title, idx)) (t, idx) ;;
    let '(title, idx) := x in k title)
-  = do t' <- uniq_title esc f l (map fst d) idx t ;; k t'.
-Proof.
-  intros esc A k l d. induction f as [|f IH]; intros idx t; [reflexivity|].
-  rewrite uniq_title_S. cbn [while_res]. unfold tdict_contains at 1.
-  destruct (text_mem t (map fst d)); [|reflexivity].
-  cbn [bind]. rewrite IH. reflexivity.
-Qed.
+  = do t' <- uniq_title esc (fun t => t) f l (map fst d) idx t ;; k t'.
+Proof. intros. exact (while_uniq_title_ci esc (fun t => t) A k l d f idx t). Qed.
 
-Lemma gen_get_block_title_eq : forall (esc : bool -> bool -> text -> text) (idstr : nat -> text) (fuel : nat)
+(* the proof covers both shapes of the source (exact keys / upper-cased keys); any other
+   combination - e.g. testing one key and storing another - does not check *)
+Lemma gen_get_block_title_eq : forall (upper : text -> text) (esc : bool -> bool -> text -> text) (idstr : nat -> text) (fuel : nat)
     (sbt : option bool) (namespaces : list unit) (ps uu : bool) (label : option text) (given : list (nat * text)) (b : nat),
-  NexusWriter_get_block_title esc idstr fuel sbt namespaces ps uu label (title_block_map given) given b
-  = do x <- get_block_title (esc ps (negb uu)) idstr fuel (link_blocks sbt (len namespaces)) given b label ;;
-    Ok (title_block_map (fst x), fst x, snd x).
+  NexusWriter_get_block_title upper esc idstr fuel sbt namespaces ps uu label (title_block_map (title_norm upper) given) given b
+  = do x <- get_block_title (esc ps (negb uu)) (title_norm upper) idstr fuel (link_blocks sbt (len namespaces)) given b label ;;
+    Ok (title_block_map (title_norm upper) (fst x), fst x, snd x).
 Proof.
   intros. unfold NexusWriter_get_block_title, get_block_title. rewrite gen_link_blocks_eq.
   destruct (negb (link_blocks sbt (len namespaces))); [reflexivity|].
@@ -79,10 +96,11 @@ Proof.
       assert (S : X = Ok (title_source idstr b label)) by (destruct label as [[|c r]|]; reflexivity)
     end.
     rewrite S. cbn [bind]. cbv zeta.
-    rewrite (while_uniq_title (esc ps (negb uu))). rewrite title_block_map_keys.
-    destruct (uniq_title (esc ps (negb uu)) fuel (title_source idstr b label) (map snd given) 1
-                (esc ps (negb uu) (title_source idstr b label))) as [t| |] eqn:U; [|reflexivity|reflexivity].
-    cbn [bind fst snd]. apply uniq_title_fresh in U.
+    first [ change (title_norm upper) with upper; rewrite (while_uniq_title_ci (esc ps (negb uu)) upper)
+          | change (title_norm upper) with (fun t : text => t); rewrite (while_uniq_title_cs (esc ps (negb uu))) ].
+    rewrite title_block_map_keys.
+    match goal with |- bind ?UT _ = _ => destruct UT as [t| |] eqn:U; [|reflexivity|reflexivity] end.
+    cbn [bind fst snd]. apply uniq_title_fresh in U. cbv beta in U.
     rewrite tdict_set_fresh by (rewrite title_block_map_keys; exact U).
     rewrite (wdict_set_fresh _ _ _ T). unfold title_block_map. rewrite map_app. reflexivity.
 Qed.
@@ -95,20 +113,20 @@ Proof.
   destruct (Nat.eqb b i); [reflexivity | apply IH].
 Qed.
 
-Lemma request_titles_assign : forall (esc : text -> text) (idstr : nat -> text) blocks given,
+Lemma request_titles_assign : forall (esc norm : text -> text) (idstr : nat -> text) blocks given,
   NoDup (map fst blocks) ->
   (forall b, In b (map fst blocks) -> title_of_block given b = None) ->
-  request_titles esc idstr blocks given
-  = assign_titles esc (map (fun x => title_source idstr (fst x) (snd x)) blocks) (map snd given).
+  request_titles esc norm idstr blocks given
+  = assign_titles esc norm (map (fun x => title_source idstr (fst x) (snd x)) blocks) (map norm (map snd given)).
 Proof.
-  intros esc idstr. induction blocks as [|[b l] r IH]; intros given N F; [reflexivity|].
+  intros esc norm idstr. induction blocks as [|[b l] r IH]; intros given N F; [reflexivity|].
   cbn [request_titles assign_titles map fst snd]. unfold get_block_title. cbn [negb].
-  rewrite (F b) by (left; reflexivity). rewrite map_length.
-  destruct (uniq_title esc (S (length given)) (title_source idstr b l) (map snd given) 1 (esc (title_source idstr b l)))
+  rewrite (F b) by (left; reflexivity). rewrite !map_length.
+  destruct (uniq_title esc norm (S (length given)) (title_source idstr b l) (map norm (map snd given)) 1 (esc (title_source idstr b l)))
     as [t| |]; [|reflexivity|reflexivity].
   cbn [bind fst snd]. inversion N as [|x xs NI N']; subst.
   rewrite IH.
-  - rewrite map_app. reflexivity.
+  - rewrite !map_app. reflexivity.
   - exact N'.
   - intros b' I. rewrite title_of_block_app. rewrite (F b') by (right; exact I).
     destruct (Nat.eqb b' b) eqn:E; [|reflexivity]. apply Nat.eqb_eq in E. subst. contradiction.
